@@ -132,3 +132,122 @@ pub fn c11(s: &mut Sess, rng: &mut Rng, n: u64) {
         s.op("tracedrop");
     }
 }
+
+/// C08: scan exactness on arbitrary planted garbage / damage, then clean-up.
+pub fn c08(s: &mut Sess, rng: &mut Rng, n: u64) {
+    use std::collections::BTreeSet;
+    for _ in 0..n {
+        let verify = rng.chance(1, 2);
+        s.begin_case(&format!("cfg kind=bytes n={} sync=1 pre=0 verify={} fail=0", *rng.pick(&[2u64, 10_000]), verify as u8));
+        if !s.op("open").starts_with("ok") { continue; }
+        // a few keys over few contents
+        let contents: [&[u8]; 4] = [b"X", b"YY", b"ZZZ", b"hello"];
+        let mut map: std::collections::BTreeMap<Vec<u8>, Vec<u8>> = Default::default();
+        for i in 0..rng.range(1, 4) {
+            let k = vec![b'a' + i as u8];
+            let c = contents[rng.below(3) as usize];
+            s.op(&format!("put {} ={}", hx(&k), hx(c)));
+            map.insert(k, c.to_vec());
+        }
+        s.op("close");
+        s.op("tracedrop");
+        let refd: BTreeSet<String> = map.values().map(|c| blake3::hash(c).to_hex().to_string()).collect();
+        let size_of = |h: &str| map.values().find(|c| blake3::hash(c).to_hex().as_str() == h).map(|c| c.len());
+        // expectations
+        let mut exp_orph: BTreeSet<String> = BTreeSet::new();
+        let mut exp_missing: BTreeSet<String> = BTreeSet::new();
+        let mut exp_corrupt: BTreeSet<String> = BTreeSet::new();
+        let mut exp_invalid: BTreeSet<String> = BTreeSet::new();
+        let mut exp_staging = 0;
+        let hexc = |s: &str| hx(s.as_bytes());
+        for _ in 0..rng.range(1, 5) {
+            match rng.below(11) {
+                0 => { // orphan blob at its canonical path
+                    let c = contents[3];
+                    let h = blake3::hash(c).to_hex().to_string();
+                    if refd.contains(&h) { continue; }
+                    s.op(&format!("plantpath {}/{}/{} {}", hexc(&h[0..2]), hexc(&h[2..4]), hexc(&h[4..]), hx(c)));
+                    exp_orph.insert(h);
+                    s.out.count("c08.orphan");
+                }
+                1 => { // stray at depth 1 / 2
+                    let p = if rng.chance(1, 2) { "junk".to_string() } else { "ab/junk".to_string() };
+                    s.op(&format!("plantpath {} {}", p.split('/').map(hexc).collect::<Vec<_>>().join("/"), hx(b"j")));
+                    exp_invalid.insert(format!("cas/{p}"));
+                    s.out.count("c08.stray-shallow");
+                }
+                2 => { // depth 3, non-hex or wrong length
+                    let names = ["zz".to_string(), "0123".to_string(), "g".repeat(60), "a".repeat(59), "a".repeat(61)];
+                    let name = names[rng.below(names.len() as u64) as usize].clone();
+                    let p = format!("ab/cd/{name}");
+                    s.op(&format!("plantpath {} {}", p.split('/').map(hexc).collect::<Vec<_>>().join("/"), hx(b"j")));
+                    exp_invalid.insert(format!("cas/{p}"));
+                    s.out.count("c08.stray-depth3");
+                }
+                3 | 4 => { // non-canonical but hex-decodable spelling of a REFERENCED hash, real blob removed
+                    let Some(h) = refd.iter().next().cloned() else { continue };
+                    if exp_missing.contains(&h) || exp_corrupt.contains(&h) { continue; }
+                    let p = if rng.chance(1, 2) { format!("{}/{}/{}", &h[0..4], &h[4..6], &h[6..]) } else { format!("{}/{}/{}", h[0..2].to_uppercase(), &h[2..4], &h[4..]) };
+                    if p == format!("{}/{}/{}", &h[0..2], &h[2..4], &h[4..]) { continue; } // upper-casing digits only
+                    s.op(&format!("plantpath {} {}", p.split('/').map(hexc).collect::<Vec<_>>().join("/"), hx(b"X")));
+                    s.op(&format!("rmblob {h}"));
+                    exp_invalid.insert(format!("cas/{p}"));
+                    exp_missing.insert(h);
+                    s.out.count("c08.noncanonical-masks-missing");
+                }
+                5 => { // referenced blob simply missing
+                    let Some(h) = refd.iter().last().cloned() else { continue };
+                    if exp_corrupt.contains(&h) { continue; }
+                    s.op(&format!("rmblob {h}"));
+                    exp_missing.insert(h);
+                    s.out.count("c08.missing");
+                }
+                6 | 7 => { // referenced blob truncated / altered / wrong size
+                    let Some(h) = refd.iter().nth(rng.below(refd.len() as u64) as usize).cloned() else { continue };
+                    if exp_missing.contains(&h) { continue; }
+                    let sz = size_of(&h).unwrap_or(0);
+                    let newc: Vec<u8> = match rng.below(3) { 0 => vec![], 1 => vec![b'!'; sz], _ => vec![b'!'; sz + 1] };
+                    s.op(&format!("setblob {h} {}", hx(&newc)));
+                    if verify { exp_corrupt.insert(h); }
+                    s.out.count("c08.corrupt");
+                }
+                8 => { s.op(&format!("plantstaging {}", hx(b"leftover"))); exp_staging += 1; s.out.count("c08.staging"); }
+                9 => { // upper-case orphan: not canonical ⇒ invalid
+                    let c = contents[3];
+                    let h = blake3::hash(c).to_hex().to_string();
+                    let up = h[4..].to_uppercase();
+                    if up == h[4..] { continue; }
+                    let p = format!("{}/{}/{}", &h[0..2], &h[2..4], up);
+                    s.op(&format!("plantpath {} {}", p.split('/').map(hexc).collect::<Vec<_>>().join("/"), hx(c)));
+                    exp_invalid.insert(format!("cas/{p}"));
+                    s.out.count("c08.uppercase");
+                }
+                _ => {}
+            }
+        }
+        let r = s.op("open");
+        if !r.starts_with("ok") { s.out.oracle_fail(format!("C08: open (fail_on_integrity_errors=false) returned {r}")); continue; }
+        let o = s.op("orphans");
+        let j = |v: &BTreeSet<String>| if v.is_empty() { "_".to_string() } else { v.iter().cloned().collect::<Vec<_>>().join(",") };
+        let total = {
+            let present_refd = refd.iter().filter(|h| !exp_missing.contains(*h)).count();
+            present_refd + exp_orph.len()
+        };
+        let want = format!("orphaned={} missing={} corrupted={} invalid={} staging={} total={}", j(&exp_orph), j(&exp_missing), j(&exp_corrupt), j(&exp_invalid), exp_staging, total);
+        if o != want { s.out.oracle_fail(format!("C08: scan reported `{o}`, an independent directory/index comparison gives `{want}`")); }
+        // clean-up: removes exactly the reported garbage, never a referenced blob
+        let before = s.op("dump");
+        let r = s.op("delete_orphans");
+        if !r.contains("errors=0") { s.out.oracle_fail(format!("C08: delete_orphans: {r}")); }
+        s.op("traceset");
+        let after = s.op("dump");
+        let cas_of = |d: &str| -> BTreeSet<String> { let c = d.split(' ').find_map(|f| f.strip_prefix("cas=")).unwrap_or("_"); if c == "_" { BTreeSet::new() } else { c.split(',').map(|e| e.split(':').next().unwrap().to_string()).collect() } };
+        let (b, a) = (cas_of(&before), cas_of(&after));
+        let want_after: BTreeSet<String> = b.iter().filter(|n| !n.starts_with("path") && !exp_orph.contains(*n)).cloned().collect();
+        if a != want_after { s.out.oracle_fail(format!("C08: after clean-up cas/ holds {a:?}, expected {want_after:?}")); }
+        if !after.contains("staging=0") { s.out.oracle_fail("C08: staging files survive clean-up".into()); }
+        s.op("iter");
+        s.op("close");
+        s.op("tracedrop");
+    }
+}
